@@ -390,6 +390,7 @@ pub fn bang(r: &mut Runner, line: &str) {
                 format!("C13 builder heap grows with the number of keys ({} keys, sink cap {}): peak({})={} peak({})={}", shape, cap, n1, p1, n2, p2)
             });
         }
+        "!scale" => crate::scale::bang_scale(r, &t),
         "!cli" => {
             // !cli <set|map|union> <prev> <rows>: the sorted CLI paths (`fst set --sorted`,
             // `fst map --sorted`, `fst union`) write the same bytes as an in-memory library
